@@ -1,3 +1,4 @@
+@classmethod
 def spec(cls, support, loc, scale):
     support, loc, scale = _astensorsfloat(support, loc, scale)
     return Normal.cdf(torch.log(support), loc, scale)
